@@ -1,5 +1,7 @@
 use crate::run::*;
 
+pub mod canon;
+pub mod cross;
 pub mod group;
 pub mod history;
 pub mod sesscc;
@@ -38,6 +40,9 @@ pub fn registry() -> Vec<Box<dyn Check>> {
         Box::new(sesscc::SessCc { id: "C02" }),
         Box::new(sesscc::SessCc { id: "C08" }),
         Box::new(group::GroupCheck),
+        Box::new(canon::CanonCheck),
+        Box::new(cross::CrossCheck { id: "C11" }),
+        Box::new(cross::CrossCheck { id: "C12" }),
         Box::new(history::HistoryCheck),
         Box::new(slots::SlotCheck),
     ]
